@@ -729,18 +729,18 @@ def closure(G_, name, ver, exact):
     """(set of (name, version) | None when the request fails, conflict-free?) — the dependency closure of the
     request: required dependencies, optional ones that can be resolved (together with everything they
     require), honouring -j; computed on an acyclic name graph only."""
-    chosen = {}
+    asked = {}                 # name -> versions requested along the traversal (failed attempts included)
     conflict = [False]
 
     def visit(n, vr, vx, norec, acc):
         v = designated(G_, n, vr, vx)
         if v is None:
             return False
+        asked.setdefault(n, set()).add(v)
+        if len(asked[n]) > 1:
+            conflict[0] = True
         if (n, v) in acc:
             return True
-        for (m, w) in acc:
-            if m == n and w != v:
-                conflict[0] = True
         acc.add((n, v))
         if norec:
             return True
